@@ -5,6 +5,7 @@ import MtailVerif.Driver.C21
 import MtailVerif.Driver.C10
 import MtailVerif.Driver.C12
 import MtailVerif.Driver.C13
+import MtailVerif.Driver.C22
 /-! `mtailmodel <prop>`: reads the case lines written by the Go harness on stdin and prints
     `<id> OBS <observation>` computed by the Lean model.  Core Lean only (links as an exe). -/
 open MtailVerif MtailVerif.Driver
@@ -18,6 +19,7 @@ def handlerFor (prop : String) : Option (List String → String) :=
   | "C10" => some C10.handle
   | "C12" => some C12.handle
   | "C13" => some C13.handle
+  | "C22" => some C22.handle
   | _ => none
 
 partial def loop (h : IO.FS.Stream) (out : IO.FS.Stream) (f : List String → String) : IO Unit := do
